@@ -4,6 +4,7 @@ use crate::case::*;
 use reactive_mutiny::verif;
 use reactive_mutiny::ogre_std::ogre_queues::{
     atomic::atomic_move::AtomicMove,
+    full_sync::full_sync_move::FullSyncMove,
     meta_container::MoveContainer, meta_publisher::MovePublisher, meta_subscriber::MoveSubscriber,
 };
 
@@ -40,7 +41,7 @@ fn run_n<const N: usize>(case: &Case) -> Vec<i64> {
     let mut out = run_schedule(&case.sched, &locs);
     let c = q.verif_counters();
     out.extend_from_slice(&[9, c[0] as i64, c[1] as i64, c[2] as i64, c[3] as i64]);
-    wind_down(handles, 2000);
+    wind_down(handles, 0);
     out
 }
 
@@ -51,5 +52,53 @@ pub fn run(case: &Case) -> Vec<i64> {
         8  => run_n::<8>(case),
         16 => run_n::<16>(case),
         n  => panic!("ring: unsupported N={n}"),
+    }
+}
+
+fn run_fs_n<const N: usize>(case: &Case) -> Vec<i64> {
+    verif::set_sequence_origin(case.get("origin", 0) as u32);
+    let q: &'static FullSyncMove<u32, N> = Box::leak(Box::new(FullSyncMove::<u32, N>::new()));
+    verif::set_sequence_origin(0);
+    let (addrs, slot_size) = q.verif_addrs();
+    let mut locs = LocMap::new();
+    locs.cell(addrs[0], 0); locs.cell(addrs[1], 1); locs.cell(addrs[2], 4);
+    locs.array(addrs[3], slot_size, N, 100);
+    let guard = addrs[2];
+    verif::reset(case.progs.len());
+    let mut handles = vec![];
+    for (tid, prog) in case.progs.iter().enumerate() {
+        let prog = prog.clone();
+        handles.push(spawn_worker(tid, move || {
+            for op in prog {
+                match op.name.as_str() {
+                    "pub" => match q.publish_movable(op.arg(0) as u32) {
+                        (Some(len), _)    => ret(tid, 1, op.arg(0), len.get() as i64),
+                        (None, Some(v))   => ret(tid, 0, v as i64, 0),
+                        (None, None)      => ret(tid, 99, 0, 0),
+                    },
+                    "cons" => match q.consume_movable() {
+                        Some(v) => ret(tid, 3, v as i64, 0),
+                        None    => ret(tid, 2, 0, 0),
+                    },
+                    "len" => { verif::yield_point("yield", guard); ret(tid, 4, q.available_elements_count() as i64, 0) },
+                    other => panic!("fsring: unknown op {other}"),
+                }
+            }
+        }));
+    }
+    let mut out = run_schedule(&case.sched, &locs);
+    let c = q.verif_counters();
+    out.extend_from_slice(&[9, c[0] as i64, c[1] as i64, c[2] as i64]);
+    wind_down(handles, 0);
+    out
+}
+
+pub fn run_fs(case: &Case) -> Vec<i64> {
+    match case.get("N", 4) {
+        2  => run_fs_n::<2>(case),
+        4  => run_fs_n::<4>(case),
+        8  => run_fs_n::<8>(case),
+        16 => run_fs_n::<16>(case),
+        n  => panic!("fsring: unsupported N={n}"),
     }
 }
